@@ -164,6 +164,32 @@ printf '%s\\n' 'xterm-fake||||4242||||99_$1'
 """
 
 
+# A fake `tmux` whose `display-message -p FORMAT` expands #{name} from the environment variable FAKE_TMUX_<name>
+# (client_termname, client_pid, pid, session_id, … — anything not set expands to nothing, as in tmux). The harness
+# controls who the "attached client" is by changing FAKE_TMUX_client_pid between requests (harness/termid.py).
+FAKE_TMUX_ENV = """#!/bin/sh
+[ "$1" = "display-message" ] || exit 1
+shift
+[ "$1" = "-p" ] && shift
+out="$1"
+for v in client_termname client_pid client_tty client_name pid session_id session_name window_id pane_id; do
+    eval "val=\\${FAKE_TMUX_$v}"
+    out=$(printf '%s' "$out" | sed -e "s|#{$v}|$val|g")
+done
+printf '%s\\n' "$out" | sed -e 's|#{[a-z_]*}||g'
+"""
+
+
+def write_fake_tmux(bin_dir) -> str:
+    """write the environment-driven fake tmux into bin_dir (to be put first in PATH); returns its path"""
+    os.makedirs(str(bin_dir), exist_ok=True)
+    path = os.path.join(str(bin_dir), "tmux")
+    with open(path, "w") as f:
+        f.write(FAKE_TMUX_ENV)
+    os.chmod(path, 0o755)
+    return path
+
+
 class PtyHost:
     def __init__(self, rows: int = 24, cols: int = 80, xpixel: int = 0, ypixel: int = 0, *, env: dict | None = None,
                  repo: str | None = None, term: str = "xterm-256color", fake_tmux: bool = True, responder=None,
